@@ -89,6 +89,8 @@ type Exec struct {
 	now      int64
 	timers   []*timer
 	tseq     int64
+	stalls   int
+	stallNS  int64
 	pseq     int64
 	chooser  Chooser
 	choices  []Choice
@@ -366,6 +368,10 @@ func (e *Exec) dispatch(from *Thread) {
 		if pick == clk {
 			// advance virtual time and fire the earliest timer, then decide again
 			if tm.at > e.now {
+				if len(opts) > 0 {
+					e.stalls++ // virtual time passes although a thread could run: that thread is stalled
+					e.stallNS += tm.at - e.now
+				}
 				e.now = tm.at
 			}
 			tm.dead = true
@@ -447,6 +453,14 @@ func (e *Exec) StopTimer(h TimerHandle) bool {
 	e.dropTimer(h.t)
 	return true
 }
+
+// Stalls reports how often virtual time advanced although some thread was runnable (a scheduling
+// deviation that models a thread stalled until the next timer). Oracles that bound how LATE
+// something happens are only meaningful up to the stalls the schedule contains.
+func (e *Exec) Stalls() int { return e.stalls }
+
+// StallNS is the total virtual time that passed in those stalls.
+func (e *Exec) StallNS() int64 { return e.stallNS }
 
 // Now returns the virtual time in ns since the execution's epoch.
 func (e *Exec) Now() int64 { return e.now }
